@@ -504,7 +504,7 @@ func c18CheckMating(c *Ctx, entries []c18Entry) {
 			return
 		}
 		zTop := bolt.BoundingBox().Max.Z
-		zc := zTop - Lt/2    // centre of the threaded part (observed: top of the bolt minus half the thread length)
+		zc := zTop - Lt/2 // centre of the threaded part (observed: top of the bolt minus half the thread length)
 		// off the axis (the screw profile has its base edge on the axis: distance 0 there) but inside the thread root that is
 		// left after the tolerance; a tolerance that consumes the core (tiny threads with a tolerance of a whole pitch) leaves
 		// nothing to locate and nothing to mate
